@@ -11,7 +11,7 @@ open Gama Gama.Ls
 variable {K : Type} [Scalar K]
 
 /-- the numeric world knows the ordering of the input: `perm` inverts `invp` on the unknowns `1..n`
-    (bounded by `inp.n`, round 4: the driver's `world` satisfies it — `world_describes` —, the former unbounded
+    (bounded by `inp.n`, round 4: the driver's `world` satisfies it — `worldOf_describes`, Lemmas/EnvStateFacts.lean —, the former unbounded
     form it did not) -/
 def World.Describes (W : World K) (inp : EnvInput) : Prop :=
   ∀ i, 1 ≤ i → i ≤ inp.n → W.perm inp.id (inp.invp i) = i
